@@ -70,7 +70,15 @@ add_int_binop!(
             Err(ManagedXError::new("Modulo by zero", rt.clone())?)
         } else {
             rt.can_afford(b)?;
-            Ok(XValue::Int(a.clone() % b.clone()))
+            // floored modulo: the result takes the sign of the divisor
+            let rem = a.clone() % b.clone();
+            Ok(XValue::Int(
+                if !rem.is_zero() && (rem.is_negative() != b.is_negative()) {
+                    rem + b.clone()
+                } else {
+                    rem
+                },
+            ))
         })
     }
 );
